@@ -74,16 +74,105 @@ impl LongGame {
         }
         self.gs = self.gs.take_action(&ea);
         self.m.apply(a)?;
+        self.compare_counters("after the step")?;
         if cross_check && !self.gs.valid_actions().contains(&Action::Pass) {
             return Err(format!("cross-check: pass not offered after {} turns", self.turns));
         }
         self.gs = self.gs.take_action(&Action::Pass);
         self.m.apply(Act::Pass)?;
+        self.compare_counters("after the pass")?;
         debug_assert!(nb == self.m.board);
         *self.seen.entry(pos_fp(&self.m.board, self.m.side)).or_insert(0) += 1;
         self.turns += 1;
         Ok(())
     }
+}
+
+impl LongGame {
+    /// C03 along a very long game: side, step counter, move number, pending status, per-turn record
+    fn compare_counters(&self, when: &str) -> Result<(), String> {
+        let gs = &self.gs;
+        let m = &self.m;
+        let side = if gs.is_p1_turn_to_move() { Side::Gold } else { Side::Silver };
+        let pend = eng_pending(gs)?;
+        let prev = gs.unwrap_play_phase().previous_piece_boards().len();
+        if side != m.side || gs.move_number() as u128 != m.move_no || gs.current_step() != m.steps_made() || pend != m.pending || prev != m.steps_made() {
+            return Err(format!(
+                "COUNTERS turn {} {}: engine side {:?} move {} step {} pending {:?} record {} / expected side {:?} move {} step {} pending {:?} record {}",
+                self.turns, when, side, gs.move_number(), gs.current_step(), pend, prev, m.side, m.move_no, m.steps_made(), m.pending, m.steps_made()
+            ));
+        }
+        Ok(())
+    }
+}
+
+/// `arena stack longgame`: one capture-free game of N turns with the C03 counters compared after
+/// every action (crosses move number 2^16 in the quick tier, 2^18 in the thorough tier)
+fn cmd_longgame(tier: &str, seed: u64, out: &str, replay_dir: &str, turns_override: Option<u64>) -> i32 {
+    let t0 = Instant::now();
+    let n = turns_override.unwrap_or(if tier == "thorough" { 560_000 } else { 140_000 });
+    let h = std::thread::Builder::new().stack_size(64 << 20).spawn(move || -> Result<u64, String> {
+        let mut g = LongGame::new(seed ^ 0x10C03)?;
+        for _ in 0..n {
+            g.turn(false)?;
+        }
+        Ok(g.gs.move_number() as u64)
+    }).expect("spawn");
+    let r = match h.join() {
+        Ok(r) => r,
+        Err(_) => {
+            eprintln!("HARNESS-ERROR: long game thread panicked");
+            return 2;
+        }
+    };
+    let mut exit = 0;
+    let final_move = match r {
+        Ok(mv) => mv,
+        Err(e) if e.starts_with("COUNTERS") => {
+            let path = format!("{}/C03-{}-longgame.json", replay_dir, seed);
+            let v = json!({"mode": "longgame", "property": "C03", "monitor": "long_game.counters", "detail": e, "turns": n, "seed": seed, "repo_src_hash": repo_hash(), "how_to_replay": "cd /verif && ./run replay <this file>"});
+            if (ReplayFile { v }).write(&path).is_err() {
+                return 2;
+            }
+            println!("violation: property C03 in a long capture-free game: {}", e);
+            println!("VIOLATION property=C03 replay={}", path);
+            exit = 1;
+            0
+        }
+        Err(e) => {
+            eprintln!("HARNESS-ERROR: long game generator: {}", e);
+            return 2;
+        }
+    };
+    let part = json!({
+        "part": "long_game_counters",
+        "evaluations": n * 2,
+        "distinct_nontrivial": n,
+        "rule": "one legal capture-free game of N turns (one step and a pass per turn, generated by the reference model); side, step counter, move number, pending status and per-turn record are compared after every action; non-trivial = turns played (each turn start is a distinct position-count pair by construction of the generator)",
+        "samples": [{"turns": n, "final_move_number": final_move, "seed": seed}],
+        "wall_s": t0.elapsed().as_secs_f64(),
+        "violations": exit,
+        "real_vs_stub": {"real": "GameState (shipped configuration)", "stub": "players (model-generated legal moves)"}
+    });
+    if std::fs::write(out, serde_json::to_string_pretty(&part).unwrap()).is_err() {
+        return 2;
+    }
+    println!("C03 long-game part: {} turns, final move number {}, {:.1}s", n, final_move, t0.elapsed().as_secs_f64());
+    exit
+}
+
+pub fn replay_longgame(f: &ReplayFile) -> Result<Option<(String, String)>, String> {
+    let n = f.v["turns"].as_u64().ok_or("no turns")?;
+    let seed = f.v["seed"].as_u64().unwrap_or(1);
+    let mut g = LongGame::new(seed ^ 0x10C03)?;
+    for _ in 0..n {
+        match g.turn(false) {
+            Ok(()) => {}
+            Err(e) if e.starts_with("COUNTERS") => return Ok(Some(("long_game.counters".into(), e))),
+            Err(e) => return Err(e),
+        }
+    }
+    Ok(None)
 }
 
 fn query_all(gs: &GameState) -> u64 {
@@ -390,6 +479,7 @@ pub fn cmd(args: &[String], tier: &str, seed: u64, out: &str, replay_dir: &str) 
             cmd_child(n, s, cs)
         }
         Some("children") => cmd_children(tier, seed, out, replay_dir),
+        Some("longgame") => cmd_longgame(tier, seed, out, replay_dir, args.get(1).and_then(|x| x.parse().ok())),
         Some("probe") => cmd_probe(tier, seed, out, replay_dir),
         _ => {
             eprintln!("usage: arena stack child <turns> <stack bytes> <seed> | children | probe");
